@@ -72,6 +72,11 @@ Fixpoint DenF (fuel : nat) (e : expr) (y : ps) : Prop :=
             if (2 <=? sh)%Z && (sh <? INT_LIM)%Z then exists u, DenF f b u /\ y =p ppow_s u (Z.to_nat sh)
             else if (sh =? -1)%Z then exists u, DenF f b u /\ ~ u O == 0 /\ (y * u)%ps =p p1
             else False
+        | ENum (NRat num dn) =>
+            if (num =? 1)%Z && (2 <=? Zpos dn)%Z && (Zpos dn <? INT_LIM)%Z
+            then exists u c, DenF f b u /\ ~ u O == 0 /\ qroot (u O) dn = Ok c /\
+                             y O == c /\ ppow_s y (Pos.to_nat dn) =p u
+            else False
         | ENum _ => False
         | _ => if is_E b then exists u, DenF f ex u /\ u O == 0 /\ y O == 1 /\ pD y =p (pD u * y)%ps
                else False
@@ -261,7 +266,25 @@ Proof.
   - (* EPow *)
     destruct e2 as [n| | | | | | | | | | | | | | | | |]; cbn [visit] in Hv; cbv beta match in HD;
       try (destruct (is_E e1); [exact (exp_case f IH _ r y Hv HD)|contradiction]).
-    destruct n as [sh| | | | | |]; try contradiction.
+    destruct n as [sh|num dn| | | | |]; try contradiction.
+    2:{ (* rational exponent 1/dn: series_nthroot *)
+      destruct ((num =? 1)%Z && (2 <=? Zpos dn)%Z && (Zpos dn <? INT_LIM)%Z) eqn:G; [|contradiction].
+      apply andb_prop in G. destruct G as [G G3]. apply andb_prop in G. destruct G as [G1 G2].
+      apply Z.eqb_eq in G1. apply Z.leb_le in G2. apply Z.ltb_lt in G3. subst num.
+      destruct HD as (u & c & Du & U0 & Hq & Y0 & Hy).
+      assert (L : ((1 <? - INT_LIM)%Z || (INT_LIM <=? 1)%Z || (INT_LIM <=? Zpos dn)%Z) = false).
+      { unfold INT_LIM in *. destruct (Z.leb_spec 2147483648 (Zpos dn)); [lia|reflexivity]. }
+      rewrite L in Hv.
+      destruct (visit f e1 prec) as [pb| | |] eqn:Eb; cbn [bind] in Hv; try discriminate Hv.
+      destruct (IH _ pb u Eb Du) as [Wb Hb].
+      assert (C0 : ~ coef pb 0 == 0) by (apply (coef0_neq_of_eqn pb prec u); [lia|exact Hb|exact U0]).
+      assert (Hq' : qroot (find_cf pb 0) dn = Ok c).
+      { rewrite <- Hq. apply qroot_proper. rewrite (find_cf_coef pb 0 (proj1 Wb)).
+        change (coef pb 0) with (den pb O). apply (Hb O). lia. }
+      destruct (nthroot_spec pb dn prec c Wb C0 G2 ltac:(lia) Hq') as (r' & Er & Wr & _).
+      rewrite Er in Hv. cbn [bind] in Hv. change ((1 =? 1)%Z) with true in Hv. cbv match in Hv.
+      inversion Hv; subst r'. split; [exact Wr|].
+      apply (nthroot_compose pb dn prec c r u y Wb C0 G2 ltac:(lia) Hq' Er Hb Y0 Hy). }
     destruct ((sh <? - INT_LIM)%Z || (INT_LIM <=? sh)%Z) eqn:Hlim; [|].
     { discriminate Hv. }
     destruct (visit f e1 prec) as [pb| | |] eqn:Eb; cbn [bind] in Hv; try discriminate Hv.
